@@ -23,9 +23,47 @@ import (
 type c01Case struct {
 	DS     *gen.Dataset `json:"ds"`
 	Layout gen.Layout   `json:"layout"`
+	// Big > 0: instead of DS, this many small synthetic events (built by bigEvents, not stored in the case) are
+	// ingested so that single blocks hold tens of thousands of records (sizes around the engine's per-block
+	// constants); Layout then applies to them
+	Big int `json:"big,omitempty"`
 }
 
+// bigEvents builds n small events: a dense id, a low-cardinality integer and a short word, 1 ms apart.
+func bigEvents(n int) []*model.Event {
+	evs := make([]*model.Event, n)
+	for i := 0; i < n; i++ {
+		vid := int64(i + 1)
+		evs[i] = &model.Event{Vid: vid, Ts: gen.BaseTs + uint64(i), Doc: model.Node{IsObj: true, Obj: []model.Field{
+			{Name: "_vid", Node: model.LeafNode(model.Int(vid))},
+			{Name: "k", Node: model.LeafNode(model.Int(int64(i % 7)))},
+			{Name: "w", Node: model.LeafNode(model.Str("w" + strconv.Itoa(i%13)))}}}}
+	}
+	return evs
+}
+
+func (cs *c01Case) events() []*model.Event {
+	if cs.Big > 0 {
+		return bigEvents(cs.Big)
+	}
+	return cs.DS.Events
+}
+
+// bigSizes: record counts per block around constants of the block format (15000-bit initial match bitset,
+// 2^14, 2^15, the 16-bit record number).
+var bigSizes = []int{14999, 15000, 15001, 15002, 16000, 16384, 16385, 20000, 32767, 32769}
+
 func genC01(t *rapid.T) *c01Case {
+	if rapid.IntRange(0, 59).Draw(t, "bigBlock") == 0 {
+		n := rapid.SampledFrom(bigSizes).Draw(t, "bigSize")
+		l := gen.Layout{Batches: []int{n}, Flush: []bool{true}, Rotate: []bool{rapid.Bool().Draw(t, "bigRotate")}}
+		if rapid.Bool().Draw(t, "bigTwoBatches") {
+			// the same events arriving in two requests before the flush: still one block
+			a := rapid.IntRange(1, n-1).Draw(t, "bigCut")
+			l = gen.Layout{Batches: []int{a, n - a}, Flush: []bool{false, true}, Rotate: []bool{false, l.Rotate[0]}}
+		}
+		return &c01Case{DS: &gen.Dataset{}, Layout: l, Big: n}
+	}
 	maxEv := pt.Scale(60, 700) // thorough: enough events to cross the default dictionary limit of 501 distinct values
 	ds := gen.GenDataset(t, gen.DatasetOpts{MaxEvents: maxEv, MaxCols: 7, NullPct: 5})
 	cs := &c01Case{DS: ds, Layout: gen.GenLayout(t, len(ds.Events))}
@@ -312,8 +350,11 @@ func hasDup(evs []*model.Event) bool {
 }
 
 func checkC01(cs *c01Case, o *pt.Obs) error {
-	evs := cs.DS.Events
+	evs := cs.events()
 	info := columnInfo(evs)
+	if cs.Big > 0 {
+		o.Class("big_block")
+	}
 	flushes, rots := cs.Layout.Blocks()
 	if flushes >= 2 {
 		o.Class("multi_block")
@@ -339,7 +380,7 @@ func checkC01(cs *c01Case, o *pt.Obs) error {
 			nt = true
 		}
 	}
-	if nt {
+	if nt || cs.Big > 0 {
 		o.NonTrivial()
 	}
 	o.Count("events", int64(len(evs)))
